@@ -148,6 +148,7 @@ static void mh_sweep(int kind)
 	int nseeds = kind == 2 ? 5 : 1;
 	size_t l1max = (guard_mode || pair_mode) && !vk_thorough ? 1040 : (vk_thorough ? 2049 : 1040);
 	for (size_t l1 = 0; l1 <= l1max; l1++) {
+		if (vk_want_trace && !(l1 == 0 || l1 == 1025)) continue;
 		if (item++ % vk_nshards != vk_shard) continue;
 		if (vk_deadline_hit()) { vk_stat("deadline_skipped", 1); continue; }
 		for (int f = 0; f < 5; f++) {
@@ -163,6 +164,7 @@ static void mh_sweep(int kind)
 				if (kind == 2) for (size_t t = 0; t <= 40; t++) l2list[n2++] = t;
 			}
 			for (int i2 = 0; i2 < n2; i2++) {
+				if (vk_want_trace && !(l2list[i2] == 0 || l2list[i2] == 1023)) continue;
 				size_t pl[3] = { l1, l2list[i2], 0 };
 				int si = (int)((l1 + l2list[i2]) % nseeds);
 				if (guard_mode) {
@@ -189,7 +191,7 @@ static void mh_sweep(int kind)
 		}
 	}
 	/* public dispatched entry points once per total length class (legacy twins are checked in E4) */
-	if (vk_shard == 0 && !guard_mode && !pair_mode) for (size_t l1 = 0; l1 <= 1100; l1 += 7) { size_t pl[2] = { l1, 1100 - l1 }; mh_stream(kind, 0, 0, pl, 2, VK_MID, 0, 0x5a5a5a5a5a5a5a5aULL, NULL, 1); }
+	if (vk_shard == 0 && !guard_mode && !pair_mode && !vk_want_trace) for (size_t l1 = 0; l1 <= 1100; l1 += 7) { size_t pl[2] = { l1, 1100 - l1 }; mh_stream(kind, 0, 0, pl, 2, VK_MID, 0, 0x5a5a5a5a5a5a5a5aULL, NULL, 1); }
 }
 
 /* ================= rolling hash (C09) ================= */
@@ -206,6 +208,7 @@ static void roll_sweep(void)
 	int extra = vk_thorough ? 150 : 70;
 	long item = 0;
 	for (unsigned w = 1; w <= 48; w++) for (int impl = 0; impl < 3; impl++) {
+		if (vk_want_trace && !(w == 1 || w == 16 || w == 48)) continue;
 		if (item++ % vk_nshards != vk_shard) continue;
 		if (!vk_host_can(roll_need[impl])) { vk_stat("skipped_family_not_executable_on_host", 1); continue; }
 		void *scan = vk_sym(roll_impl[impl]);
@@ -241,8 +244,15 @@ static void roll_sweep(void)
 		_rolling_hash2_run_until_dispatched = scan;
 		for (unsigned mi = 0; mi < NMT; mi++) {
 			uint32_t mask = roll_mt[mi][0], trig = roll_mt[mi][1];
+			if (vk_want_trace) {
+				/* direct call of the scan routine so that the measurement is attributed to the dispatch candidate itself */
+				uint32_t idx = 0; *st = st0;
+				VCALLN(scan, roll_impl[impl], AP(&idx), A32(N), AP(st->table1), AP(st->table2), AP(s_in.ro + 256 + w), AP(s_in.ro + 256), A64(st->hash), A64(mask), A64(trig));
+				if (mi > 2) continue;
+			}
 			/* explicit-state search: state = position p (canonical state restored), transition = run(max_len m) */
 			for (size_t p = 0; p <= N; p++) for (size_t m = 0; m <= N - p; m++) {
+				if (vk_want_trace && (p % 37 || m % 13)) continue;
 				if (vk_deadline_hit()) { vk_stat("deadline_skipped", 1); goto next_impl; }
 				/* restore canonical state at p */
 				*st = st0; st->hash = canon[p]; memcpy(st->history, stream + p, w);
@@ -297,6 +307,7 @@ static void roll_sweep(void)
 			}
 			/* chained runs without state restore: state reached from the initial state vs canonical */
 			for (size_t m1 = 0; m1 <= N; m1 += (vk_thorough ? 1 : 3)) for (size_t m2 = 0; m2 <= N; m2 += (vk_thorough ? 5 : 11)) {
+				if (vk_want_trace) break;
 				*st = st0;
 				size_t pos = 0; size_t ms[3] = { m1, m2, N };
 				for (int c = 0; c < 3 && pos < N; c++) {
@@ -320,7 +331,7 @@ next_impl:;
 	}
 	_rolling_hash2_run_until_dispatched = vk_sym("_rolling_hash2_run_until_mbinit");
 	/* mask generator */
-	if (vk_shard == 0) {
+	if (vk_shard == 0 && !vk_want_trace) {
 		void *f_mg = vk_sym("isal_rolling_hashx_mask_gen");
 		size_t o = vk_place(&s_misc, 4, VK_END, 4, 0); uint32_t *pm = (uint32_t *)(s_misc.rw + o);
 		uint32_t means[70000]; int nm = 0;
@@ -470,10 +481,19 @@ static void gcms_sweep(void)
 	gcm_prepare();
 	g_one = malloc(8192);
 	long item = 0, idx = 0;
-	int maxsum = vk_thorough ? 96 : ((guard_mode || pair_mode || secrets_mode) ? 40 : 64);
+	if (vk_want_trace) vk_thorough = 0;
+	int maxsum = vk_want_trace ? 6 : vk_thorough ? 96 : ((guard_mode || pair_mode || secrets_mode) ? 40 : 64);
 	for (int f = 0; f < 4; f++) for (int ks = 0; ks < 2; ks++) for (int dec = 0; dec < 2; dec++) {
 		if (!vk_host_can(gcm_need[f])) { vk_stat("skipped_family_not_executable_on_host", 1); continue; }
 		if (vk_only && !strstr(gcm_fams[f], vk_only)) continue;
+		if (vk_want_trace) {
+			/* ISA measurement: a few streams that reach the partial-block, bulk-loop and tail code of every update entry */
+			if (item++ % vk_nshards != vk_shard) continue;
+			size_t t1[3] = { 5, 17, 33 }, t2[3] = { 300, 7, 800 }, t3[3] = { 64, 128, 33 }, t4[3] = { 0, 0, 0 };
+			gcms_case(f, ks, dec, 0, t1, 3, 20, 0); gcms_case(f, ks, dec, 0, t2, 3, 1, 1); gcms_case(f, ks, dec, 0, t4, 3, 0, 0);
+			gcms_case(f, ks, dec, 1, t3, 3, 16, 0);
+			continue;
+		}
 		/* (a) all compositions of len <= maxsum into <= 3 pieces (zero-length pieces included) */
 		for (size_t l1 = 0; l1 <= (size_t)maxsum; l1++) {
 			if (item++ % vk_nshards != vk_shard) continue;
@@ -522,6 +542,7 @@ int main(int argc, char **argv)
 	guard_mode = !strcmp(prop, "C08");
 	pair_mode = !strcmp(prop, "C20");
 	secrets_mode = !strcmp(prop, "C14");
+	if (vk_want_trace) vk_trace_enable();
 	if (secrets_mode) vk_call_mode = VC_POISON_REGS | VC_STACK | VC_CAPVEC;
 	else if (pair_mode) vk_call_mode = VC_POISON_REGS | VC_STACK;
 	else if (!strcmp(prop, "C19")) vk_call_mode = VC_POISON_REGS;
